@@ -165,11 +165,12 @@ Definition bind (v : vars) (actuals : list str) : vars :=
            | None => v n
            end.
 
-Fixpoint map_opt {T U} (f : T -> option U) (l : list T) : option (list U) :=
-  match l with
-  | [] => Some []
-  | x :: r => match f x, map_opt f r with Some y, Some ys => Some (y :: ys) | _, _ => None end
-  end.
+Definition map_opt {T U} (f : T -> option U) : list T -> option (list U) :=
+  fix go (l : list T) : option (list U) :=
+    match l with
+    | [] => Some []
+    | x :: r => match f x, go r with Some y, Some ys => Some (y :: ys) | _, _ => None end
+    end.
 
 (* [defs]: the recursively expanded variables created by define (name -> body text) *)
 Definition call_expand (v : vars) (defs : str -> option str) (inside : str) : option str :=
